@@ -1,10 +1,12 @@
 package checks
 
 import (
+	"bufio"
 	"bytes"
 	"encoding/json"
 	"fmt"
 	"io"
+	"strings"
 
 	carv1 "github.com/ipld/go-car"
 	carv2 "github.com/ipld/go-car/v2"
@@ -16,11 +18,12 @@ import (
 )
 
 type c02Desc struct {
-	Seed   int64  `json:"seed"`
-	V2     bool   `json:"v2,omitempty"`
-	Family string `json:"family"` // cuts | flips | random
-	AllBits bool  `json:"allbits,omitempty"`
-	Only   int    `json:"only,omitempty"` // when >0: replay only this offset+1
+	Seed    int64  `json:"seed"`
+	V2      bool   `json:"v2,omitempty"`
+	Family  string `json:"family"` // cuts | flips | random
+	AllBits bool   `json:"allbits,omitempty"`
+	Only    int    `json:"only,omitempty"` // when >0: replay only this offset+1
+	Big     int    `json:"big,omitempty"`  // when >0: the archive holds one section whose body (cid+data) has this many bytes; cuts/flips are sampled
 }
 
 // a scanning reader under test
@@ -74,6 +77,7 @@ func c02Readers() []c02Reader {
 	seekable := func(b []byte) io.Reader { return bytes.NewReader(b) }
 	plain := func(b []byte) io.Reader { return lab.PlainReader{R: bytes.NewReader(b)} }
 	onebyte := func(b []byte) io.Reader { return lab.OneByteReader{R: bytes.NewReader(b)} }
+	buffered := func(b []byte) io.Reader { return bufio.NewReaderSize(bytes.NewReader(b), 64) }
 	inspect := func(validate bool) func([]byte) ([]refcar.Block, bool, error) {
 		return func(in []byte) ([]refcar.Block, bool, error) {
 			rd, err := carv2.NewReader(bytes.NewReader(in))
@@ -91,6 +95,8 @@ func c02Readers() []c02Reader {
 		{name: "v2.BlockReader.Next(bytes.Reader)", hashes: true, returns: true, run: next(seekable)},
 		{name: "v2.BlockReader.Next(plain)", hashes: true, returns: true, run: next(plain)},
 		{name: "v2.BlockReader.Next(1-byte reads)", hashes: true, returns: true, run: next(onebyte)},
+		{name: "v2.BlockReader.Next(bufio.Reader)", hashes: true, returns: true, run: next(buffered)},
+		{name: "v2.BlockReader.SkipNext(bufio.Reader)", run: skip(buffered)},
 		{name: "v2.BlockReader.SkipNext(bytes.Reader)", run: skip(seekable)},
 		{name: "v2.BlockReader.SkipNext(plain)", run: skip(plain)},
 		{name: "v2.Reader.Inspect(true)", hashes: true, run: inspect(true)},
@@ -136,7 +142,7 @@ type c02Layout struct {
 	file     []byte
 	arch     *refcar.Archive
 	blocks   []refcar.Block
-	region   []string // per byte
+	region   []string    // per byte
 	boundary map[int]int // cut offset -> number of complete sections before it (clean end admissible)
 	complete []int       // per cut offset: number of complete sections before the cut
 }
@@ -149,6 +155,10 @@ func c02Build(d c02Desc) *c02Layout {
 	})
 	if r.Intn(4) == 0 { // one section with a 2-byte length varint
 		content.Blocks = append(content.Blocks, gen.BoundaryBlock(r, 128+r.Intn(100)))
+	}
+	if d.Big > 0 { // a section beyond 1 MiB (3- or 4-byte length varint), not last
+		bb := gen.BoundaryBlock(r, d.Big)
+		content.Blocks = append(content.Blocks[:1], append([]refcar.Block{bb}, content.Blocks[1:]...)...)
 	}
 	payload := refcar.EncodeV1(content.Roots, content.NilRoots, content.Blocks)
 	file := payload
@@ -241,6 +251,15 @@ func runC02(t *mon.T, raw json.RawMessage) {
 		panic(err)
 	}
 	readers := c02Readers()
+	if d.Big > 0 {
+		var keep []c02Reader
+		for _, rd := range readers {
+			if !strings.Contains(rd.name, "1-byte") {
+				keep = append(keep, rd)
+			}
+		}
+		readers = keep
+	}
 	if d.Family == "random" {
 		c02Random(t, d, readers)
 		return
@@ -285,10 +304,48 @@ func runC02(t *mon.T, raw json.RawMessage) {
 		return true
 	}
 
+	sample := map[int]bool{}
+	if d.Big > 0 {
+		// total enumeration is too heavy for a multi-MiB archive: every offset outside the big section's
+		// data, plus seeded offsets and both ends inside it
+		rs := gen.Rand(d.Seed ^ 0xb16)
+		// find the longest data run (the big block)
+		bestLo, bestHi, curLo := 0, -1, -1
+		for j := 0; j <= len(l.region); j++ {
+			in := j < len(l.region) && l.region[j] == "section-data"
+			if in && curLo < 0 {
+				curLo = j
+			}
+			if !in && curLo >= 0 {
+				if j-1-curLo > bestHi-bestLo {
+					bestLo, bestHi = curLo, j-1
+				}
+				curLo = -1
+			}
+		}
+		// the big section's own length varint and CID bytes, and a few offsets elsewhere
+		for j := bestLo - 1; j >= 0 && j >= bestLo-48; j-- {
+			sample[j] = true
+		}
+		for k := 0; k < 16; k++ {
+			sample[rs.Intn(len(l.region))] = true
+		}
+		sample[bestHi+1] = true
+		for _, j := range []int{bestLo, bestLo + 1, bestHi - 1, bestHi, (bestLo + bestHi) / 2} {
+			sample[j] = true
+		}
+		for k := 0; k < 24; k++ {
+			sample[bestLo+rs.Intn(bestHi-bestLo+1)] = true
+		}
+		t.Cover("big-section-archives")
+	}
 	switch d.Family {
 	case "cuts":
 		for j := 0; j < len(file); j++ {
 			if d.Only > 0 && j != d.Only-1 {
+				continue
+			}
+			if d.Big > 0 && !sample[j] {
 				continue
 			}
 			in := file[:j]
@@ -329,6 +386,9 @@ func runC02(t *mon.T, raw json.RawMessage) {
 		r := gen.Rand(d.Seed ^ 0x5eed)
 		for j := 0; j < len(file); j++ {
 			if d.Only > 0 && j != d.Only-1 {
+				continue
+			}
+			if d.Big > 0 && !sample[j] {
 				continue
 			}
 			bits := []int{r.Intn(8)}
@@ -440,21 +500,28 @@ func genC02(g *mon.G) {
 	for i := 0; i < g.Pick(100, 2000); i++ {
 		g.Emit(c02Desc{Seed: r.Int63(), V2: i%2 == 0, Family: "random"})
 	}
+	// sections beyond 1 MiB, at the 3/4-byte length-varint boundary (2 MiB) and in between
+	bigs := []int{1<<20 + 4096, 2097151, 2097152, 3 << 20}
+	for i := 0; i < g.Pick(4, 24); i++ {
+		s := r.Int63()
+		g.Emit(c02Desc{Seed: s, V2: i%2 == 1, Family: "cuts", Big: bigs[i%len(bigs)]})
+		g.Emit(c02Desc{Seed: s, V2: i%2 == 0, Family: "flips", Big: bigs[(i+1)%len(bigs)]})
+	}
 }
 
 func init() {
 	Register(&mon.Check{
-		ID:    "C02",
-		Level: "exploration",
-		Rule: "cases = (seeded small valid archive, container kind, mutation family); family cuts = EVERY proper prefix of the archive, family flips = every byte with one seeded bit (quick) or all 8 bits (thorough), family random = 200 random mutations (hash oracle only); each mutated input goes through 10 scanning readers (v2 BlockReader.Next on 3 source kinds, SkipNext on 2, Inspect(true|false), root CarReader, root LoadCar slow+batch); events_observed counts reader executions; non-trivial = every case (each holds ≥1 section)",
+		ID:          "C02",
+		Level:       "exploration",
+		Rule:        "cases = (seeded small valid archive, container kind, mutation family); family cuts = EVERY proper prefix of the archive, family flips = every byte with one seeded bit (quick) or all 8 bits (thorough), family random = 200 random mutations (hash oracle only); plus archives holding one section of 1 MiB+4 KiB / 2 MiB-1 / 2 MiB / 3 MiB (3- and 4-byte length varints) with every offset outside that block and ~30 sampled offsets inside it; each mutated input goes through 10 scanning readers (v2 BlockReader.Next on 3 source kinds, SkipNext on 2, Inspect(true|false), root CarReader, root LoadCar slow+batch); events_observed counts reader executions; non-trivial = every case (each holds ≥1 section)",
 		Assumptions: []string{"reference section table (refcar) decides where a cut/flip lands", "hashes recomputed with Go stdlib/x-crypto", "cuts at a section boundary and cuts after the end of a CARv2 payload are exempt from the truncation clause, as the property states"},
-		Gen:   genC02,
-		Run:   runC02,
+		Gen:         genC02,
+		Run:         runC02,
 		MinCover: map[string]int{
 			"cut:v1:after-section-length-varint": 5, "cut:v1:in-section-data": 50, "cut:v1:in-section-cid": 50, "cut:v1:in-v1-header-body": 50,
 			"cut:v2:in-v2-header": 50, "cut:v2:in-section-data": 50, "cut:v2:after-section-length-varint": 5,
 			"flip:v1:section-data": 100, "flip:v1:section-digest": 100, "flip:v2:section-data": 100, "flip:v2:section-digest": 100,
-			"random:blocks-returned": 100,
+			"random:blocks-returned": 100, "big-section-archives": 4,
 		},
 	})
 }
